@@ -4,7 +4,7 @@
 From Coq Require Import List ZArith NArith Bool Arith Lia.
 Import ListNotations.
 From DD Require Import Base.PyStr Base.Value Diff.Tree Diff.DiffModel Hash.HashModel Hash.HashProofsC06 Lfu.LfuModel
-  DiffIO.DiffIOModel DiffIO.MemoModel DiffIO.MemoProofs DiffIO.DiffIOCache.
+  DiffIO.DiffIOModel DiffIO.MemoModel DiffIO.MemoProofs DiffIO.MemoAnyCache DiffIO.DiffIOCache.
 
 Section Transparent.
 Variable H : pystr -> pystr.
@@ -18,6 +18,12 @@ Variable sched : nat -> bool.
 Variable pp : path -> prog V.
 Variable dec : path -> V -> list (nat * nat).
 Hypothesis pp_consistent : forall p, consistent spec (pp p).
+(* the invariant of the cache under which a memoised program is transparent: [cache_ok spec] (MemoProofs.v, from the
+   LFU model directly) or "C18's representation invariant + the abstract map is right" (MemoAnyCache.v, from C18's
+   refinement theorem alone) *)
+Variable Okc : lfu V -> Prop.
+Hypothesis memo_inv : forall (p : prog V) (s : mstate V), consistent spec p -> Okc (mcache s) ->
+  fst (fst (run_cached sched p s)) = run_pure p /\ Okc (mcache (snd (fst (run_cached sched p s)))).
 
 Definition V0 := list (nat * nat).
 Definition pairs0 (p : path) : V0 := dec p (run_pure (pp p)).
@@ -28,8 +34,8 @@ Notation st0 := (diff_io_st H udiff skip excl c rep V0 (fun _ => false) (fun p =
 
 (* the cached computation returns what the cache-less one returns and keeps the cache right *)
 Definition Rel (m : M1) (m0 : M0) : Prop :=
-  forall s s0, cache_ok spec (mcache s) ->
-    fst (fst (m s)) = fst (fst (m0 s0)) /\ cache_ok spec (mcache (snd (fst (m s)))).
+  forall s s0, Okc (mcache s) ->
+    fst (fst (m s)) = fst (fst (m0 s0)) /\ Okc (mcache (snd (fst (m s)))).
 
 Lemma Rel_ret r : Rel (mret V r) (mret V0 r).
 Proof. intros s s0 Hok. cbn. auto. Qed.
@@ -119,7 +125,7 @@ Lemma iter_rel recs recs0 xs ys p1 p2 :
       (iter_st H skip c rep V0 (fun _ => false) (fun p => Ret (pairs0 p)) (fun _ v => v) recs0 xs ys p1 p2).
 Proof.
   intros HF s s0 Hok. unfold iter_st.
-  destruct (memo_transparent V spec sched (pp p1) s (pp_consistent p1) Hok) as [Ev Ok1].
+  destruct (memo_inv (pp p1) s (pp_consistent p1) Hok) as [Ev Ok1].
   destruct (run_cached sched (pp p1) s) as [[v s1] lg1]. cbn [fst snd] in Ev, Ok1. subst v.
   cbn [run_cached]. fold (pairs0 p1).
   set (mA := if rep then iter_rep_st H skip c rep V recs xs ys p1 p2 (pairs0 p1) else iter_norep_st H skip c rep V recs xs ys p1 p2 (pairs0 p1)).
@@ -192,7 +198,46 @@ Theorem st_transparent :
   cache_ok spec (mcache (snd (fst (diff_io_st H udiff skip excl c rep V sched pp dec t1 t2 p1 p2 s)))).
 Proof.
   intros H udiff skip excl c rep V spec sched pp dec Hc t1 t2 p1 p2 s Hok.
-  exact (st_rel H udiff skip excl c rep V spec sched pp dec Hc t1 t2 p1 p2 s (mkM (empty 0) 0) Hok).
+  exact (st_rel H udiff skip excl c rep V spec sched pp dec Hc (cache_ok spec)
+           (fun p s => memo_transparent V spec sched p s) t1 t2 p1 p2 s (mkM (empty 0) 0) Hok).
+Qed.
+
+(* the same with C18's refinement theorem as the only fact about the cache (MemoAnyCache.v): from any LFU state that
+   satisfies C18's invariant, refines an abstract bounded map and holds right values - in particular the empty cache
+   of any capacity >= 1 (LFUCache raises for capacity 0; cache_size=0 is DummyLFU, [C17_cache_off_is_pure]) *)
+Definition lfu_right {V : Type} (spec : key -> V) (c : lfu V) : Prop :=
+  lfu_good V c /\ right V (lfu V) (lfu_holds V) spec c.
+
+Lemma memo_inv_by_refinement (V : Type) (spec : key -> V) (sched : nat -> bool) (p : prog V) (s : mstate V) :
+  consistent spec p -> lfu_right spec (mcache s) ->
+  fst (fst (run_cached sched p s)) = run_pure p /\ lfu_right spec (mcache (snd (fst (run_cached sched p s)))).
+Proof.
+  intros Hc [Hg Hr]. destruct s as [c n].
+  destruct (run_cached_is_any V sched p c n) as (E1 & E2 & _). rewrite E1, E2.
+  destruct (any_cache_transparent V (lfu V) (@get V) (@set V) (lfu_good V) (lfu_holds V)
+              (lfu_good_get V) (lfu_good_set V) (lfu_get_sound V) (lfu_get_frame V) (lfu_set_frame V) spec sched p (mkA c n) Hc Hg Hr)
+    as (E & G & R'). split; [exact E|split; assumption].
+Qed.
+
+Theorem st_transparent_by_refinement :
+  forall (H : pystr -> pystr) udiff skip excl c rep (V : Type) (spec : key -> V)
+         (sched : nat -> bool) (pp : path -> prog V) (dec : path -> V -> list (nat * nat)),
+  (forall p, consistent spec (pp p)) ->
+  forall t1 t2 p1 p2 (s : mstate V), lfu_right spec (mcache s) ->
+  fst (fst (diff_io_st H udiff skip excl c rep V sched pp dec t1 t2 p1 p2 s)) =
+    diff_io_o H udiff skip excl c rep (fun p => dec p (run_pure (pp p))) t1 t2 p1 p2 /\
+  lfu_right spec (mcache (snd (fst (diff_io_st H udiff skip excl c rep V sched pp dec t1 t2 p1 p2 s)))).
+Proof.
+  intros H udiff skip excl c rep V spec sched pp dec Hc t1 t2 p1 p2 s Hok.
+  exact (st_rel H udiff skip excl c rep V spec sched pp dec Hc (lfu_right spec)
+           (fun p s => memo_inv_by_refinement V spec sched p s) t1 t2 p1 p2 s (mkM (empty 0) 0) Hok).
+Qed.
+
+Lemma lfu_right_empty (V : Type) (spec : key -> V) (cap : nat) : 1 <= cap -> lfu_right spec (@empty V cap).
+Proof.
+  intro Hc. split.
+  - split; [exact Hc|]. split; [apply LfuInv.empty_inv|]. exists (LfuSpec.sempty cap). apply LfuProofs.R_empty.
+  - intros k v [u E]. discriminate.
 Qed.
 
 Corollary st_settings_agree :
@@ -210,4 +255,18 @@ Proof.
   destruct (diff_io_st H udiff skip excl c rep V sched pp dec t1 t2 [] [] _) as [[r s1] l1].
   destruct (diff_io_st H udiff skip excl c rep V sched' pp dec t1 t2 [] [] _) as [[r' s1'] l1'].
   cbn [fst snd] in *. rewrite E1, E2. reflexivity.
+Qed.
+
+
+Corollary st_by_refinement_empty :
+  forall (H : pystr -> pystr) udiff skip excl c rep (V : Type) (spec : key -> V)
+         (sched : nat -> bool) (pp : path -> prog V) (dec : path -> V -> list (nat * nat)),
+  (forall p, consistent spec (pp p)) ->
+  forall t1 t2 p1 p2 (cap n : nat), 1 <= cap ->
+  fst (fst (diff_io_st H udiff skip excl c rep V sched pp dec t1 t2 p1 p2 (mkM (empty cap) n))) =
+    diff_io_o H udiff skip excl c rep (fun p => dec p (run_pure (pp p))) t1 t2 p1 p2.
+Proof.
+  intros H udiff skip excl c rep V spec sched pp dec Hc t1 t2 p1 p2 cap n Hcap.
+  apply (st_transparent_by_refinement H udiff skip excl c rep V spec sched pp dec Hc t1 t2 p1 p2 (mkM (empty cap) n)).
+  apply lfu_right_empty. exact Hcap.
 Qed.
